@@ -949,8 +949,7 @@ func Contains(haystack Value, needle Value) (bool, error) {
 		// In a string, "in" is the substring test. Only a string or a number
 		// can be part of a string: null, a boolean or a list coerce to the
 		// empty string, but they are not in every string.
-		needle = withoutSafe(needle)
-		if _, boolean := needle.(Boolean); needle == nil || boolean || reflect.ValueOf(needle).Kind() == reflect.Bool || isContainer(needle) || isOpaque(needle) {
+		if !textual(needle) {
 			return false, nil
 		}
 		return strings.Contains(CoerceString(haystack), CoerceString(needle)), nil
